@@ -14,6 +14,9 @@ NOTES = "All checks: ./vcheck <ID> <quick|thorough> [--replay FILE]; exit 0 held
 X = "exploration"
 F = "fault_enumeration"
 CHECKS = {
+ "C01": (X, "stateful property-based testing: generated muxer call histories (proptest vec of ops + interpreter, exhaustive for <=3/4 ops) against a per-track model; read back through the demuxer",
+         "Every generated history is muxed, reopened and every sample compared with the model of accepted samples; rejected calls are checked to return Err and to leave the output byte-identical. Small histories are enumerated exhaustively over a 48-letter op alphabet, long ones sampled. Bounded search.",
+         "trusts Mp4Reader for read-back (checked independently by C03), proptest; histories <= 400 ops", "DESIGN.md 4/C01"),
  "C03": (X, "property-based testing: small-scope exhaustive enumeration of chunk maps + proptest random tables, ground-truth oracle from an independent encoder",
          "Every sample of every generated file is looked up through sample_count/sample_offset/read_sample and compared with the ground truth kept by the reference encoder that produced the file; chunk-map structure is enumerated exhaustively for small N, other dimensions and large N are sampled. Bounded search: absence beyond the explored scope is not shown.",
          "trusts the harness' reference encoder (no library code) and proptest; sizes <= 300 B/sample", "DESIGN.md 4/C03"),
